@@ -15,6 +15,7 @@ MUTATORS = {"append", "extend", "insert", "pop", "remove", "clear", "update", "s
             "__delitem__", "write", "seek"}
 CACHE_DECORATORS = {"lru_cache", "cache", "cached_property"}
 MUTABLE_CTORS = {"list", "dict", "set", "defaultdict", "OrderedDict", "deque", "bytearray", "Counter"}
+IMMUTABLE_CTORS = {"int", "str", "bytes", "float", "bool", "tuple", "frozenset", "complex", "range", "object"}
 
 
 class Site:
@@ -46,8 +47,28 @@ def base_name(e):
     return ("other", type(e).__name__)
 
 
+def singleton_classes(index, packages=("a816", "script")):
+    """classes of the repository that are instantiated at module level and never inside a function: their instances are process-wide objects
+    (the opcode table's emitters), so a write to `self` outside __init__ is a write to module-level state"""
+    in_functions, at_module_level = set(), set()
+    for modname, mi in index.modules.items():
+        if modname.split(".")[0] not in packages:
+            continue
+        fn_nodes = set()
+        for n in ast.walk(mi.tree):
+            if isinstance(n, (ast.FunctionDef, ast.AsyncFunctionDef, ast.Lambda)):
+                for m in ast.walk(n):
+                    fn_nodes.add(id(m))
+        for n in ast.walk(mi.tree):
+            if isinstance(n, ast.Call) and isinstance(n.func, ast.Name):
+                (in_functions if id(n) in fn_nodes else at_module_level).add(n.func.id)
+    names = {q.rsplit(".", 1)[1] for q in index.classes if q.split(".")[0] in packages}
+    return (at_module_level & names) - in_functions
+
+
 def analyse(index, packages=("a816", "script")):
     sites = []
+    singletons = singleton_classes(index, packages)
     for modname, mi in sorted(index.modules.items()):
         if modname.split(".")[0] not in packages:
             continue
@@ -93,6 +114,9 @@ def analyse(index, packages=("a816", "script")):
             for d in list(fn.args.defaults) + [x for x in fn.args.kw_defaults if x is not None]:
                 if is_mutable_literal(d):
                     sites.append(Site(mi.name, fname, d.lineno, "default", ast.unparse(d), "module", "mutable default argument is shared by all calls"))
+                elif isinstance(d, ast.Call) and not (isinstance(d.func, ast.Name) and d.func.id in IMMUTABLE_CTORS):
+                    # an object built ONCE, when the function is defined, and handed to every call that omits the argument
+                    sites.append(Site(mi.name, fname, d.lineno, "default", ast.unparse(d), "module", "default argument is one object shared by all calls"))
 
             def region_of(target_expr):
                 kind, nm = base_name(target_expr)
@@ -111,6 +135,8 @@ def analyse(index, packages=("a816", "script")):
                                                                and isinstance(n.value, ast.Name) and n.value.id == "self" for n in ast.walk(init))
                             if not rebound:
                                 return "module", f"class attribute {cls}.{first.attr} holds a mutable object shared by all instances"
+                        if cls and fn.name != "__init__" and (cls in singletons or any(q.rsplit(".", 1)[-1] in singletons for q in index.mro(f"{mi.name}.{cls}"))):
+                            return "module", f"instances of {cls} are module-level objects (never built inside a function): state kept on them outlives an assembly"
                         return "instance", ""
                     if nm in declared_global:
                         return "module", "declared global"
@@ -282,3 +308,28 @@ def module_receiver_calls(index, sites, packages=("a816", "script")):
                             continue
                         out.append({"call_site": f"{modname}:{n.lineno}", "call": ast.unparse(n.func), "object": nm})
     return out
+
+
+def call_closure(index, roots, packages=("a816", "script")):
+    """Qualified names of the repository functions reachable from `roots` through calls (resolved by simple name: an over-approximation)."""
+    by_simple = {}
+    for q in index.functions:
+        if q.split(".")[0] in packages:
+            by_simple.setdefault(q.rsplit(".", 1)[-1], set()).add(q)
+    for q, ci in index.classes.items():
+        if q.split(".")[0] in packages and "__init__" in ci.methods:
+            by_simple.setdefault(q.rsplit(".", 1)[-1], set()).add(q + ".__init__")
+    seen, work = set(), [r for r in roots if r in index.functions]
+    while work:
+        q = work.pop()
+        if q in seen:
+            continue
+        seen.add(q)
+        fn = index.functions[q][0]
+        for n in ast.walk(fn):
+            if isinstance(n, ast.Call):
+                name = n.func.attr if isinstance(n.func, ast.Attribute) else n.func.id if isinstance(n.func, ast.Name) else None
+                for t in by_simple.get(name, ()):
+                    if t not in seen:
+                        work.append(t)
+    return seen
